@@ -646,7 +646,17 @@ pub fn exec(world: &mut World, xs: &mut St, code: i64, p: &[i64]) -> Out {
             (99, 0) => {
                 xs.readers.clear();
                 let old = std::mem::replace(world, World::new());
-                drop(old);
+                if xs.hs.len() % 2 == 1 {
+                    // (for worlds with an odd number of handles) the world dies while a panic raised by the caller
+                    // unwinds through the frame that owns it: exactly the same values must be destroyed
+                    struct CallerPanic;
+                    let _ = catch_unwind(AssertUnwindSafe(move || {
+                        let _owner = old;
+                        std::panic::panic_any(CallerPanic);
+                    }));
+                } else {
+                    drop(old);
+                }
                 vec![7]
             }
             _ => vec![8],
